@@ -335,3 +335,53 @@ func Harness_C01_archive_level_calls() {
 	}
 	vm.Assert("C01.archive_level_locks_free", v.Env.LocksFree())
 }
+
+// Harness_C01_protected_history_rebuilds: with signatures and/or encryption on, a short history with one record of
+// every kind the filesystem writes (directory, file with content, metadata update, move of a file or of a directory,
+// removal) is rebuilt from the tape with the callbacks Initialize uses: the rebuild succeeds and shows the same tree.
+func Harness_C01_protected_history_rebuilds() {
+	pipes := config.PipeConfig{
+		Encryption: []string{config.NoneKey, config.EncryptionFormatAgeKey}[vm.Choice("encryption", 2)],
+		Signature:  []string{config.NoneKey, config.SignatureFormatMinisignKey}[vm.Choice("signature", 2)],
+	}
+	rc, wc := verifCrypto(pipes)
+	v := verifNewFSCrypto(pipes, rc, wc, false, true)
+	v.Env.Tape.Exists = false
+	_, ierr := v.FS.Initialize("/", os.ModePerm)
+	vm.Assert("C01.protected_initialize_ok", ierr == nil)
+	if ierr != nil {
+		return
+	}
+	ok := v.FS.Mkdir("/d", 0o750) == nil
+	h, cerr := v.FS.Create("/d/f")
+	if cerr == nil {
+		h.Write([]byte("xy"))
+		cerr = h.Close()
+	}
+	ok = ok && cerr == nil
+	switch vm.Choice("then", 4) {
+	case 0:
+		ok = ok && v.FS.Rename("/d/f", "/d/g") == nil
+	case 1:
+		ok = ok && v.FS.Rename("/d", "/e") == nil
+	case 2:
+		ok = ok && v.FS.Chmod("/d/f", 0o600) == nil
+	case 3:
+		ok = ok && v.FS.Remove("/d/f") == nil
+	}
+	vm.Assert("C01.protected_calls_ok", ok)
+	if !ok {
+		return
+	}
+	r, rerr := c01Rebuild(v)
+	vm.Assert("C01.protected_rebuild_succeeds", rerr == nil)
+	if rerr != nil {
+		return
+	}
+	l := v.Env.Metadata
+	rm := config.MetadataConfig{Metadata: r}
+	for _, u := range []string{"/", "/d", "/d/f", "/d/g", "/e", "/e/f"} {
+		vm.Assert("C01.protected_same_view_after_rebuild", c01SameView(l, rm, u))
+	}
+	vm.Assert("C01.protected_locks_free", v.Env.LocksFree())
+}
